@@ -9,6 +9,7 @@ import (
 	"os"
 	"path/filepath"
 	"strings"
+	"time"
 
 	"go.uber.org/multierr"
 	"go.uber.org/zap"
@@ -26,7 +27,11 @@ import (
 //     flags and mode it is given and hands out a fresh temporary file (or fails when
 //     the path contains "bad");
 //   - os.Stdout / os.Stderr swapped for temporary files during a case;
-//   - log.Flags/Prefix/Writer before and after redirection.
+//   - log.Flags/Prefix/Writer before and after redirection;
+//   - a watchdog around every operation (c19run): an operation that has not returned
+//     when it expires is observed as "blocked" = (7), which the oracle rejects
+//     (C19_blocked_rejected, C19_history_all_returned).  A rejected registration, Open,
+//     Build or redirection must leave every later operation able to complete.
 
 const c19marker = "bad"
 
@@ -46,7 +51,8 @@ func (s *c19sink) Close() error                { s.closes++; return nil }
 
 type c19env struct {
 	dir      string
-	sinks    []*c19sink
+	sinks    []*c19sink // the closable sinks created by the current operation, in creation order
+	old      []*c19sink // those of earlier operations of the same history
 	calls    []SX
 	ctors    []int
 	fout     *os.File
@@ -54,13 +60,81 @@ type c19env struct {
 	savedOut *os.File
 	savedErr *os.File
 	nfile    int
+	stdBase  int
+	sdead    bool // a read-back of the sink / encoder registry did not return
+	edead    bool
 }
 
 var (
 	c19cur     *c19env
 	c19stubbed bool
 	c19dir     string
+	// the registries could not be reset after a blocked operation: nothing more can be run
+	c19wedged   bool
+	c19nblocked int
 )
+
+// ---- the watchdog ----
+const (
+	c19opTimeout    = 10 * time.Second
+	c19resetTimeout = 3 * time.Second // once something has blocked (never on a correct tree)
+	c19maxBlocked   = 6
+)
+
+func c19timeout() time.Duration {
+	if c19nblocked > 0 {
+		return c19resetTimeout
+	}
+	return c19opTimeout
+}
+
+var c19blocked = L(I(7))
+
+type c19panic struct{ v interface{} }
+
+// c19run runs f in a goroutine of its own and waits for it at most d.
+// 0: f returned; 1: f has not returned (it is abandoned; the caller must not touch
+// what f writes); 2: f panicked (pv is the value).
+func c19run(d time.Duration, f func()) (st int, pv interface{}) {
+	done := make(chan *c19panic, 1)
+	go func() {
+		defer func() {
+			if r := recover(); r != nil {
+				done <- &c19panic{r}
+			} else {
+				done <- nil
+			}
+		}()
+		f()
+	}()
+	t := time.NewTimer(d)
+	defer t.Stop()
+	select {
+	case p := <-done:
+		if p != nil {
+			return 2, p.v
+		}
+		return 0, nil
+	case <-t.C:
+		c19nblocked++
+		return 1, nil
+	}
+}
+
+// c19guard runs one operation of a case under the watchdog; a panic is a violation
+// reported directly (observation (9)), a blocked operation is the observation (7).
+func c19guard(c *Ctx, what string, input SX, f func() SX) (obs SX, st int) {
+	var o SX
+	st, pv := c19run(c19timeout(), func() { o = f() })
+	switch st {
+	case 1:
+		return c19blocked, 1
+	case 2:
+		c.Viol(fmt.Sprintf("%s panicked: %v", what, pv), input)
+		return L(I(9)), 2
+	}
+	return o, 0
+}
 
 func c19openFileStub(name string, flag int, perm os.FileMode) (*os.File, error) {
 	e := c19cur
@@ -82,17 +156,38 @@ func c19openFileStub(name string, flag int, perm os.FileMode) (*os.File, error) 
 	return f, nil
 }
 
-func c19begin() *c19env {
-	if !c19stubbed {
-		zap.VerifSetOpenFile(c19openFileStub)
-		c19stubbed = true
-		d, err := os.MkdirTemp("", "c19-")
-		if err != nil {
-			panic(err)
-		}
-		c19dir = d
+// c19begin starts a case from fresh registries.  The verif hooks take the registry
+// mutexes, so after an operation that left one of them locked the reset itself does
+// not return: the run stops there (the blocked case has been reported already).
+func c19begin(c *Ctx) (*c19env, bool) {
+	if c19wedged {
+		return nil, false
 	}
-	zap.VerifResetRegistries()
+	if c19nblocked >= c19maxBlocked {
+		c19wedged = true
+		c.Info("c19-stopped", fmt.Sprintf("after-%d-blocked-operations", c19nblocked))
+		return nil, false
+	}
+	st, pv := c19run(c19timeout(), func() {
+		if !c19stubbed {
+			zap.VerifSetOpenFile(c19openFileStub)
+			c19stubbed = true
+			d, err := os.MkdirTemp("", "c19-")
+			if err != nil {
+				panic(err)
+			}
+			c19dir = d
+		}
+		zap.VerifResetRegistries()
+	})
+	if st == 2 {
+		panic(pv)
+	}
+	if st == 1 {
+		c19wedged = true
+		c.Info("c19-stopped", fmt.Sprintf("registries-cannot-be-reset-after-case-%d", c.Cases))
+		return nil, false
+	}
 	e := &c19env{dir: c19dir, savedOut: os.Stdout, savedErr: os.Stderr}
 	var err error
 	if e.fout, err = os.Create(filepath.Join(e.dir, "stdout")); err != nil {
@@ -103,20 +198,28 @@ func c19begin() *c19env {
 	}
 	os.Stdout, os.Stderr = e.fout, e.ferr
 	c19cur = e
-	return e
+	return e, true
 }
 
 func (e *c19env) end() {
 	os.Stdout, os.Stderr = e.savedOut, e.savedErr
 	e.fout.Close()
 	e.ferr.Close()
-	for _, s := range e.sinks {
+	for _, s := range append(e.old, e.sinks...) {
 		if s.f != nil {
 			s.f.Close()
 			os.Remove(s.name)
 		}
 	}
 	c19cur = nil
+}
+
+// mark starts the next operation of a history: its observation counts only the
+// opener calls, constructor calls, sinks and std-stream lines of that operation
+func (e *c19env) mark() {
+	e.old = append(e.old, e.sinks...)
+	e.sinks, e.calls, e.ctors = nil, nil, nil
+	e.stdBase = e.stdLines()
 }
 
 func (e *c19env) factory(id int) func(*url.URL) (zap.Sink, error) {
@@ -161,12 +264,57 @@ func (e *c19env) stats() SX {
 	return L(out...)
 }
 
+func (e *c19env) stdLines() int {
+	return c19lines(filepath.Join(e.dir, "stdout")) + c19lines(filepath.Join(e.dir, "stderr"))
+}
+
 func (e *c19env) std() SX {
 	c := 0
 	if c19closed(e.fout) || c19closed(e.ferr) {
 		c = 1
 	}
-	return L(I(c19lines(filepath.Join(e.dir, "stdout"))+c19lines(filepath.Join(e.dir, "stderr"))), I(c))
+	return L(I(e.stdLines()-e.stdBase), I(c))
+}
+
+// sorted read-back of the registries, under the watchdog as well: (7) when it does not
+// return (and then it is not tried again in this case; the history goes on, so that
+// the next operation of the API shows whether the registry is still usable)
+func (e *c19env) skeys() SX {
+	var ks []string
+	if e.sdead {
+		return c19blocked
+	}
+	if st, _ := c19run(c19timeout(), func() { ks = zap.VerifSinkSchemes() }); st != 0 {
+		e.sdead = true
+		return c19blocked
+	}
+	return c19keys(ks)
+}
+
+func (e *c19env) ekeys() SX {
+	var ks []string
+	if e.edead {
+		return c19blocked
+	}
+	if st, _ := c19run(c19timeout(), func() { ks = zap.VerifEncoderNames() }); st != 0 {
+		e.edead = true
+		return c19blocked
+	}
+	return c19keys(ks)
+}
+
+func (e *c19env) meta(nt bool, class string, st int, extra ...string) map[string]string {
+	m := map[string]string{"nt": "0", "class": class}
+	if nt && st == 0 && !e.sdead && !e.edead {
+		m["nt"] = "1"
+	}
+	if st == 1 || e.sdead || e.edead {
+		m["blocked"] = "1"
+	}
+	for i := 0; i+1 < len(extra); i += 2 {
+		m[extra[i]] = extra[i+1]
+	}
+	return m
 }
 
 // ---- the net/url oracle ----
@@ -255,48 +403,48 @@ func c19names(names []string) SX {
 }
 
 // ---- kind 0: Open ----
+// one Open: nw writes, snapshot, closeAll, snapshot (called under the watchdog)
+func (e *c19env) openObs(c *Ctx, raws []string, nw int, input SX) (obs SX, failed bool) {
+	w, closeAll, err := zap.Open(raws...)
+	if err == nil {
+		for k := 0; k < nw; k++ {
+			_, _ = w.Write(c19payload)
+		}
+		before := e.stats()
+		closeAll()
+		return L(I(0), I(0), L(e.calls...), before, e.stats(), e.std()), false
+	}
+	if w != nil || closeAll != nil {
+		c.Viol("zap.Open returned an error together with a writer or a close function", input)
+	}
+	return L(I(1), I(len(multierr.Errors(err))), L(e.calls...), L(), e.stats(), e.std()), true
+}
+
 func c19open(c *Ctx, names []string, raws []string, nw int, class string) {
 	ps, ok := c19purls(c, raws)
 	if !ok {
 		return
 	}
 	input := L(I(0), c19names(names), L(ps...), I(nw))
-	e := c19begin()
+	e, ok := c19begin(c)
+	if !ok {
+		return
+	}
 	defer e.end()
-	for i, n := range names {
-		_ = zap.RegisterSink(n, e.factory(i+1))
-	}
-	var obs SX
-	func() {
-		defer func() {
-			if r := recover(); r != nil {
-				c.Viol(fmt.Sprintf("zap.Open panicked: %v", r), input)
-				obs = L(I(9))
-			}
-		}()
-		w, closeAll, err := zap.Open(raws...)
-		if err == nil {
-			for k := 0; k < nw; k++ {
-				_, _ = w.Write(c19payload)
-			}
-			before := e.stats()
-			closeAll()
-			obs = L(I(0), I(0), L(e.calls...), before, e.stats(), e.std())
-		} else {
-			if w != nil || closeAll != nil {
-				c.Viol("zap.Open returned an error together with a writer or a close function", input)
-			}
-			obs = L(I(1), I(len(multierr.Errors(err))), L(e.calls...), L(), e.stats(), e.std())
+	obs, st := c19guard(c, "RegisterSink", input, func() SX {
+		for i, n := range names {
+			_ = zap.RegisterSink(n, e.factory(i+1))
 		}
-	}()
-	nt := "0"
-	if len(raws) >= 2 && len(e.sinks) > 0 {
-		nt = "1"
+		return nil
+	})
+	if st == 0 {
+		obs, st = c19guard(c, "zap.Open", input, func() SX { o, _ := e.openObs(c, raws, nw, input); return o })
 	}
+	nt := len(raws) >= 2 && len(e.sinks) > 0
 	if class == "url" && len(raws) == 1 && strings.ContainsAny(raws[0], ":?#@%") {
-		nt = "1"
+		nt = true
 	}
-	c.Emit(input, obs, map[string]string{"nt": nt, "class": class, "k": fmt.Sprint(len(raws))})
+	c.Emit(input, obs, e.meta(nt, class, st, "k", fmt.Sprint(len(raws))))
 }
 
 // ---- kind 1: Config.Build ----
@@ -361,6 +509,32 @@ func (e *c19env) registerEnc(name string, id int, ok bool) error {
 	})
 }
 
+// one Config.Build and nw entries (called under the watchdog)
+func (e *c19env) buildObs(c *Ctx, b c19build, input SX) (obs SX, failed bool) {
+	cfg := zap.Config{Encoding: b.encoding, EncoderConfig: c19encCfg(b.timeKey, b.encTime),
+		OutputPaths: b.out, ErrorOutputPaths: b.errp, DisableStacktrace: true}
+	if b.level {
+		cfg.Level = zap.NewAtomicLevelAt(zapcore.InfoLevel)
+	}
+	// the absurd caller skip makes every entry also produce one line on the error output
+	lg, err := cfg.Build(zap.AddCallerSkip(100000))
+	ctors := L()
+	if len(e.ctors) > 0 {
+		ctors = LI(e.ctors)
+	}
+	if err == nil {
+		for k := 0; k < b.nw; k++ {
+			lg.Info("c19")
+		}
+		st := e.stats()
+		return L(I(0), ctors, L(e.calls...), st, st, e.std()), false
+	}
+	if lg != nil {
+		c.Viol("Config.Build returned an error together with a logger", input)
+	}
+	return L(I(c19buildCls(err)), ctors, L(e.calls...), L(), e.stats(), e.std()), true
+}
+
 func c19doBuild(c *Ctx, b c19build, class string) {
 	po, ok1 := c19purls(c, b.out)
 	pe, ok2 := c19purls(c, b.errp)
@@ -373,112 +547,91 @@ func c19doBuild(c *Ctx, b c19build, class string) {
 	}
 	input := L(I(1), c19names(b.names), L(encs...), Bool(b.timeKey), Bool(b.encTime), Str(b.encoding), Bool(b.level),
 		L(po...), L(pe...), I(b.nw))
-	e := c19begin()
+	e, ok := c19begin(c)
+	if !ok {
+		return
+	}
 	defer e.end()
-	for i, n := range b.names {
-		_ = zap.RegisterSink(n, e.factory(i+1))
-	}
-	for i, en := range b.encs {
-		_ = e.registerEnc(en.name, i+2, en.ok)
-	}
-	cfg := zap.Config{Encoding: b.encoding, EncoderConfig: c19encCfg(b.timeKey, b.encTime),
-		OutputPaths: b.out, ErrorOutputPaths: b.errp, DisableStacktrace: true}
-	if b.level {
-		cfg.Level = zap.NewAtomicLevelAt(zapcore.InfoLevel)
-	}
-	var obs SX
-	var berr error
-	func() {
-		defer func() {
-			if r := recover(); r != nil {
-				c.Viol(fmt.Sprintf("Config.Build panicked: %v", r), input)
-				obs = L(I(9))
-				berr = errors.New("panic")
-			}
-		}()
-		// the absurd caller skip makes every entry also produce one line on the error output
-		lg, err := cfg.Build(zap.AddCallerSkip(100000))
-		berr = err
-		ctors := L()
-		if len(e.ctors) > 0 {
-			ctors = LI(e.ctors)
+	obs, st := c19guard(c, "RegisterSink/RegisterEncoder", input, func() SX {
+		for i, n := range b.names {
+			_ = zap.RegisterSink(n, e.factory(i+1))
 		}
-		if err == nil {
-			for k := 0; k < b.nw; k++ {
-				lg.Info("c19")
-			}
-			st := e.stats()
-			obs = L(I(0), ctors, L(e.calls...), st, st, e.std())
-		} else {
-			if lg != nil {
-				c.Viol("Config.Build returned an error together with a logger", input)
-			}
-			obs = L(I(c19buildCls(err)), ctors, L(e.calls...), L(), e.stats(), e.std())
+		for i, en := range b.encs {
+			_ = e.registerEnc(en.name, i+2, en.ok)
 		}
-	}()
-	nt := "0"
-	if berr != nil && len(e.sinks) > 0 {
-		nt = "1"
+		return nil
+	})
+	failed := false
+	if st == 0 {
+		obs, st = c19guard(c, "Config.Build", input, func() SX {
+			o, f := e.buildObs(c, b, input)
+			failed = f
+			return o
+		})
 	}
-	if berr == nil && len(e.sinks) >= 2 && b.nw > 0 {
-		nt = "1"
-	}
-	c.Emit(input, obs, map[string]string{"nt": nt, "class": class, "k": fmt.Sprint(len(b.out) + len(b.errp))})
+	nt := st == 0 && ((failed && len(e.sinks) > 0) || (!failed && len(e.sinks) >= 2 && b.nw > 0))
+	c.Emit(input, obs, e.meta(nt, class, st, "k", fmt.Sprint(len(b.out)+len(b.errp))))
 }
 
 // ---- kind 2: std-log redirection ----
-func c19redirect(c *Ctx, which int, flags int, prefix string, level int, class string) {
-	input := L(I(2), I(which), I(flags), Str(prefix), I(level))
+// one redirection under prior (flags, prefix); the standard logger is put back afterwards
+func c19redirectObs(c *Ctx, which int, flags int, prefix string, level int, input SX) (SX, int) {
 	savedF, savedP, savedW := log.Flags(), log.Prefix(), log.Writer()
-	defer func() { log.SetFlags(savedF); log.SetPrefix(savedP); log.SetOutput(savedW) }()
-	var user bytes.Buffer
-	log.SetFlags(flags)
-	log.SetPrefix(prefix)
-	log.SetOutput(&user)
-	core, logs := observer.New(zapcore.DebugLevel)
-	lg := zap.New(core, zap.WithFatalHook(zapcore.WriteThenPanic))
-	classify := func() int {
-		w := log.Writer()
-		switch {
-		case w == &user:
-			return 0
-		case w == os.Stderr:
-			return 2
-		case fmt.Sprintf("%T", w) == "*zap.loggerWriter":
-			return 1
+	defer c19run(c19resetTimeout, func() { log.SetFlags(savedF); log.SetPrefix(savedP); log.SetOutput(savedW) })
+	return c19guard(c, "RedirectStdLog[At]", input, func() SX {
+		var user bytes.Buffer
+		log.SetFlags(flags)
+		log.SetPrefix(prefix)
+		log.SetOutput(&user)
+		core, logs := observer.New(zapcore.DebugLevel)
+		lg := zap.New(core, zap.WithFatalHook(zapcore.WriteThenPanic))
+		classify := func() int {
+			w := log.Writer()
+			switch {
+			case w == &user:
+				return 0
+			case w == os.Stderr:
+				return 2
+			case fmt.Sprintf("%T", w) == "*zap.loggerWriter":
+				return 1
+			}
+			return 3
 		}
-		return 3
-	}
-	var restore func()
-	var err error
-	if which == 0 {
-		restore = zap.RedirectStdLog(lg)
-	} else {
-		restore, err = zap.RedirectStdLogAt(lg, zapcore.Level(int8(level)))
-	}
-	f1, p1, w1 := log.Flags(), log.Prefix(), classify()
-	delivered := -99
-	if err == nil {
-		func() {
-			defer func() { _ = recover() }()
-			log.Print("hello")
-		}()
-		if all := logs.All(); len(all) == 1 && all[0].Message == "hello" {
-			delivered = int(all[0].Level)
+		var restore func()
+		var err error
+		if which == 0 {
+			restore = zap.RedirectStdLog(lg)
+		} else {
+			restore, err = zap.RedirectStdLogAt(lg, zapcore.Level(int8(level)))
 		}
-	} else if restore != nil {
-		c.Viol("RedirectStdLogAt returned an error together with a restore function", input)
+		f1, p1, w1 := log.Flags(), log.Prefix(), classify()
+		delivered := -99
+		if err == nil {
+			func() {
+				defer func() { _ = recover() }()
+				log.Print("hello")
+			}()
+			if all := logs.All(); len(all) == 1 && all[0].Message == "hello" {
+				delivered = int(all[0].Level)
+			}
+		} else if restore != nil {
+			c.Viol("RedirectStdLogAt returned an error together with a restore function", input)
+		}
+		if err == nil && restore != nil {
+			restore()
+		}
+		f2, p2, w2 := log.Flags(), log.Prefix(), classify()
+		return L(Bool(err != nil), I(f1), Str(p1), I(w1), I(delivered), I(f2), Str(p2), I(w2))
+	})
+}
+
+func c19redirect(c *Ctx, which int, flags int, prefix string, level int, class string) {
+	if c19wedged || c19nblocked >= c19maxBlocked {
+		return
 	}
-	if err == nil && restore != nil {
-		restore()
-	}
-	f2, p2, w2 := log.Flags(), log.Prefix(), classify()
-	obs := L(Bool(err != nil), I(f1), Str(p1), I(w1), I(delivered), I(f2), Str(p2), I(w2))
-	nt := "0"
-	if flags != 0 || prefix != "" {
-		nt = "1"
-	}
-	c.Emit(input, obs, map[string]string{"nt": nt, "class": class})
+	input := L(I(2), I(which), I(flags), Str(prefix), I(level))
+	obs, st := c19redirectObs(c, which, flags, prefix, level, input)
+	c.Emit(input, obs, (&c19env{}).meta(flags != 0 || prefix != "", class, st))
 }
 
 // ---- kind 3: sink registry ----
@@ -493,6 +646,36 @@ func c19keys(ks []string) SX {
 		out[i] = Str(k)
 	}
 	return L(out...)
+}
+
+func c19sregCls(err error) int {
+	if err == nil {
+		return 0
+	}
+	m := err.Error()
+	switch {
+	case strings.Contains(m, "empty string"):
+		return 1
+	case strings.Contains(m, "is not a valid scheme"):
+		return 2
+	case strings.Contains(m, "already registered"):
+		return 3
+	}
+	return 8
+}
+
+func c19eregCls(err error) int {
+	if err == nil {
+		return 0
+	}
+	m := err.Error()
+	switch {
+	case strings.Contains(m, "no encoder name specified"):
+		return 1
+	case strings.Contains(m, "already registered"):
+		return 3
+	}
+	return 8
 }
 
 func c19sreg(c *Ctx, ops []c19op, class string) {
@@ -510,43 +693,51 @@ func c19sreg(c *Ctx, ops []c19op, class string) {
 		}
 	}
 	input := L(I(3), L(xs...))
-	e := c19begin()
+	e, ok := c19begin(c)
+	if !ok {
+		return
+	}
 	defer e.end()
-	obs := make([]SX, len(ops))
-	rejected := 0
+	var obs []SX
+	rejected, st := 0, 0
 	for i, o := range ops {
+		i, o := i, o
+		var ob SX
+		e.mark()
 		if o.reg {
-			err := zap.RegisterSink(o.name, e.factory(i+1))
 			cls := 0
-			if err != nil {
-				rejected++
-				m := err.Error()
-				switch {
-				case strings.Contains(m, "empty string"):
-					cls = 1
-				case strings.Contains(m, "is not a valid scheme"):
-					cls = 2
-				case strings.Contains(m, "already registered"):
-					cls = 3
-				default:
-					cls = 8
+			ob, st = c19guard(c, "RegisterSink", input, func() SX {
+				cls = c19sregCls(zap.RegisterSink(o.name, e.factory(i+1)))
+				return nil
+			})
+			if st == 0 {
+				if cls != 0 {
+					rejected++
 				}
+				ks := e.skeys()
+				ob = L(I(0), I(cls), ks)
 			}
-			obs[i] = L(I(0), I(cls), c19keys(zap.VerifSinkSchemes()))
 		} else {
-			e.calls = nil
-			_, closeAll, err := zap.Open(o.name)
-			if err == nil {
-				closeAll()
+			failed := false
+			ob, st = c19guard(c, "zap.Open", input, func() SX {
+				_, closeAll, err := zap.Open(o.name)
+				if err == nil {
+					closeAll()
+				}
+				failed = err != nil
+				return nil
+			})
+			if st == 0 {
+				ks := e.skeys()
+				ob = L(I(1), Bool(failed), L(e.calls...), ks)
 			}
-			obs[i] = L(I(1), Bool(err != nil), L(e.calls...), c19keys(zap.VerifSinkSchemes()))
+		}
+		obs = append(obs, ob)
+		if st != 0 {
+			break // the rest of the history is not run
 		}
 	}
-	nt := "0"
-	if len(ops) >= 2 && rejected > 0 {
-		nt = "1"
-	}
-	c.Emit(input, L(obs...), map[string]string{"nt": nt, "class": class, "ops": fmt.Sprint(len(ops))})
+	c.Emit(input, L(obs...), e.meta(len(ops) >= 2 && rejected > 0, class, st, "ops", fmt.Sprint(len(ops))))
 }
 
 // ---- kind 4: encoder registry ----
@@ -560,42 +751,52 @@ func c19ereg(c *Ctx, ops []c19op, class string) {
 		}
 	}
 	input := L(I(4), L(xs...))
-	e := c19begin()
+	e, ok := c19begin(c)
+	if !ok {
+		return
+	}
 	defer e.end()
-	obs := make([]SX, len(ops))
-	rejected := 0
+	var obs []SX
+	rejected, st := 0, 0
 	for i, o := range ops {
+		i, o := i, o
+		var ob SX
+		e.mark()
 		if o.reg {
-			err := e.registerEnc(o.name, i+2, true)
 			cls := 0
-			if err != nil {
-				rejected++
-				m := err.Error()
-				switch {
-				case strings.Contains(m, "no encoder name specified"):
-					cls = 1
-				case strings.Contains(m, "already registered"):
-					cls = 3
-				default:
-					cls = 8
+			ob, st = c19guard(c, "RegisterEncoder", input, func() SX {
+				cls = c19eregCls(e.registerEnc(o.name, i+2, true))
+				return nil
+			})
+			if st == 0 {
+				if cls != 0 {
+					rejected++
 				}
+				ks := e.ekeys()
+				ob = L(I(0), I(cls), ks)
 			}
-			obs[i] = L(I(0), I(cls), c19keys(zap.VerifEncoderNames()))
 		} else {
-			e.ctors = nil
-			_, err := zap.Config{Encoding: o.name, Level: zap.NewAtomicLevel(), EncoderConfig: c19encCfg(false, false)}.Build()
+			cls := 0
 			ctors := L()
-			if len(e.ctors) > 0 {
-				ctors = LI(e.ctors)
+			ob, st = c19guard(c, "Config.Build", input, func() SX {
+				_, err := zap.Config{Encoding: o.name, Level: zap.NewAtomicLevel(), EncoderConfig: c19encCfg(false, false)}.Build()
+				cls = c19buildCls(err)
+				if len(e.ctors) > 0 {
+					ctors = LI(e.ctors)
+				}
+				return nil
+			})
+			if st == 0 {
+				ks := e.ekeys()
+				ob = L(I(1), I(cls), ctors, ks)
 			}
-			obs[i] = L(I(1), I(c19buildCls(err)), ctors, c19keys(zap.VerifEncoderNames()))
+		}
+		obs = append(obs, ob)
+		if st != 0 {
+			break
 		}
 	}
-	nt := "0"
-	if len(ops) >= 2 && rejected > 0 {
-		nt = "1"
-	}
-	c.Emit(input, L(obs...), map[string]string{"nt": nt, "class": class, "ops": fmt.Sprint(len(ops))})
+	c.Emit(input, L(obs...), e.meta(len(ops) >= 2 && rejected > 0, class, st, "ops", fmt.Sprint(len(ops))))
 }
 
 // ================= generators =================
@@ -630,16 +831,16 @@ func c19mkPath(flavour int, fail bool, i int) string {
 
 // failing paths that fail before any opener is reached
 var c19failEarly = []string{
-	"nosuch://h/ok.log",                // unknown scheme
-	"file://user:pw@localhost/ok.log",  // user info
-	"file://localhost:8080/ok.log",     // port
-	"file:///ok.log?x=1",               // query
-	"file:///ok.log#frag",              // fragment
-	"file://example.com/ok.log",        // host
-	"c19t://h/ok%zz",                   // bad escape: url.Parse fails
-	"file://LOCALHOST/ok.log",          // host compared exactly
-	":ok.log",                          // missing protocol scheme
-	"c19T+://h/ok.log",                 // valid but unregistered scheme
+	"nosuch://h/ok.log",               // unknown scheme
+	"file://user:pw@localhost/ok.log", // user info
+	"file://localhost:8080/ok.log",    // port
+	"file:///ok.log?x=1",              // query
+	"file:///ok.log#frag",             // fragment
+	"file://example.com/ok.log",       // host
+	"c19t://h/ok%zz",                  // bad escape: url.Parse fails
+	"file://LOCALHOST/ok.log",         // host compared exactly
+	":ok.log",                         // missing protocol scheme
+	"c19T+://h/ok.log",                // valid but unregistered scheme
 }
 
 func c19faultPaths(k int, mask int, assign int, r *RNG, off int) []string {
@@ -690,7 +891,7 @@ var (
 	c19users = []string{"", "", "", "", "u@", "u:p@", "@", ":@", "%40@"}
 	c19hosts = []string{"", "", "", "localhost", "localhost", "LOCALHOST", "Localhost", "example.com", "127.0.0.1", "[::1]",
 		"local%68ost", "localhost.", "h"}
-	c19ports = []string{"", "", "", "", ":", ":80", ":0", ":x"}
+	c19ports  = []string{"", "", "", "", ":", ":80", ":0", ":x"}
 	c19pathsG = []string{"", "/", "/tmp/ok.log", "/tmp/" + c19marker + ".log", "ok.log", "./ok.log", "../ok.log", "/a%2Fb/ok",
 		"/sp ace/ok", "stdout", "stderr", "/stdout", "%73tdout", "/ok%zz", "/o%6B", "/ok;p=1", "//ok", "/ok/../x", "/%", "/ok%00",
 		"/" + c19marker, "b%61d"}
@@ -769,6 +970,11 @@ func c19(c *Ctx) {
 	}
 	c19open(c, c19regNames, nil, 3, "fault")
 	c19open(c, []string{"c19t", "C19T", "c19T"}, []string{"c19t://h/ok", "C19T://h/ok2"}, 1, "fault")
+	c19open(c, c19regNamesRej, []string{"c19t://h/ok", "C19UP://h/ok2", "c19x+y.z-w://h/ok3", "stdout", "rel/ok4"}, 2, "fault")
+	c19doBuild(c, c19build{names: c19regNamesRej, encs: []c19enc{{"mine", true}, {"mine", false}, {"", true}, {"json", false}}, encoding: "mine",
+		timeKey: true, encTime: true, level: true, out: []string{"c19t://h/ok1", "C19UP://h/ok2"}, errp: []string{"stderr"}, nw: 2}, "dir-build")
+	// rejected operations followed by every other operation on the same registries
+	c19mixDirected(c)
 
 	// ---------- 2. fault enumeration: Open, k <= 5, every failing subset ----------
 	K := 5
@@ -778,7 +984,11 @@ func c19(c *Ctx) {
 				if k == 0 && assign > 0 {
 					continue
 				}
-				c19open(c, c19regNames, c19faultPaths(k, mask, assign, r, 0), r.Intn(4), "fault")
+				names := c19regNames
+				if (mask+assign)%2 == 1 { // half of them after rejected registrations
+					names = c19regNamesRej
+				}
+				c19open(c, names, c19faultPaths(k, mask, assign, r, 0), r.Intn(4), "fault")
 			}
 		}
 	}
@@ -794,7 +1004,11 @@ func c19(c *Ctx) {
 						}
 						out := c19faultPaths(k1, mask, assign, r, 0)
 						errp := c19faultPaths(k2, mask>>k1, assign, r, k1)
-						c19doBuild(c, c19build{names: c19regNames, encoding: "json", timeKey: true, encTime: true, level: level,
+						names := c19regNames
+						if (mask+k1)%2 == 1 {
+							names = c19regNamesRej
+						}
+						c19doBuild(c, c19build{names: names, encoding: "json", timeKey: true, encTime: true, level: level,
 							out: out, errp: errp, nw: r.Intn(3)}, "build-fault")
 					}
 				}
@@ -817,7 +1031,11 @@ func c19(c *Ctx) {
 						default:
 							out, errp = []string{"c19t://h/ok1"}, []string{"stderr", "nosuch://x"}
 						}
-						c19doBuild(c, c19build{names: c19regNames, encs: encs, encoding: encoding, timeKey: tk&1 != 0, encTime: tk&2 != 0,
+						names := c19regNames
+						if v == 1 {
+							names = c19regNamesRej
+						}
+						c19doBuild(c, c19build{names: names, encs: encs, encoding: encoding, timeKey: tk&1 != 0, encTime: tk&2 != 0,
 							level: level, out: out, errp: errp, nw: 1}, "build-early")
 					}
 				}
@@ -852,7 +1070,11 @@ func c19(c *Ctx) {
 		for i := range raws {
 			raws[i] = c19url(r)
 		}
-		c19open(c, c19regNames, raws, r.Intn(3), "url")
+		names := c19regNames
+		if k%3 == 0 {
+			names = c19regNamesRej
+		}
+		c19open(c, names, raws, r.Intn(3), "url")
 	}
 
 	// ---------- 6. registries: random histories of registrations and lookups ----------
@@ -903,6 +1125,15 @@ func c19(c *Ctx) {
 		} else {
 			c19ereg(c, ops, "ereg")
 		}
+	}
+
+	// ---------- 7. mixed histories over both registries ----------
+	M2 := 1500
+	if c.Thorough {
+		M2 = 40000
+	}
+	for k := 0; k < M2 && !c19wedged; k++ {
+		c19mixRandom(c, r)
 	}
 	if c19dir != "" {
 		os.RemoveAll(c19dir)
